@@ -41,6 +41,7 @@ class Cfg:
         self.focus = focus  # governed fields to concentrate on
         self.mode = mode
         self.pin: Optional[int] = None  # pinned mode: own position asserted first, governed fields read through it
+        self.allslots = False  # all-slots mode: a governed field is checked on every group position through gtxn
 
     def on(self, feat: str) -> bool:
         return feat not in self.off
@@ -158,6 +159,17 @@ def atom(draw, cfg: Cfg, mode: str, version: int, fields: List[str]):
         op = draw(st.sampled_from(["==", "!="]))
     else:
         raise AssertionError(field)
+    if cfg.allslots and field in PINNED_FIELDS:
+        # the same comparison on the transaction at every position 0..15 (whatever position the governed
+        # transaction has, its field is compared): `gtxn 0 F; c; op; gtxn 1 F; c; op; &&; ...`
+        left = draw(st.booleans())
+        kind = draw(st.sampled_from(["gtxn", "gtxn", "gtxns"] if version >= 3 else ["gtxn"]))
+        chain = None
+        for i in range(16):
+            r_i = ["read", {"kind": kind, "field": field, "idx": i}]
+            a_i = ["cmp", op, c, r_i] if left else ["cmp", op, r_i, c]
+            chain = a_i if chain is None else ["and", chain, a_i]
+        return chain
     if draw(st.booleans()):
         return ["cmp", op, rd, c]
     if field == "GroupIndex" and op in ("<", "<=", ">", ">=") and not cfg.on("const_left_ordered_groupindex"):
@@ -826,7 +838,7 @@ DETECTOR_FIELDS = {
 @st.composite
 def semantic_program(draw, profile: str = "modelled", disabled=(), focus: Optional[List[str]] = None,
                      mode: Optional[str] = None, max_stmts: int = 12, with_ast: bool = False, pinned: bool = False,
-                     second_intcblock: bool = False):
+                     second_intcblock: bool = False, allslots: bool = False):
     cfg = Cfg(profile, disabled, focus, mode)
     version = draw(st.sampled_from([8, 8, 8, 7, 6, 5, 4, 4, 3, 2]))
     if pinned:
@@ -836,6 +848,12 @@ def semantic_program(draw, profile: str = "modelled", disabled=(), focus: Option
         cfg.off |= {"pinidx_stmt"}
     m = mode or draw(st.sampled_from(["lsig", "lsig", "app"]))
     fields = list(focus) if focus else list(DETECTOR_FIELDS[m])
+    if allslots:
+        cfg.allslots = True
+        cfg.off |= {"pinidx_stmt"}
+        # ApplicationID shares the transaction-kind information with TypeEnum/OnCompletion and is read in the
+        # bare `txn ApplicationID` form as well: left out so that every governed check has the all-slots form
+        fields = [f for f in fields if f != "ApplicationID"]
     if m == "lsig" and not cfg.on("oc_appid_checks_in_lsig"):
         fields = [f for f in fields if f not in ("OnCompletion", "ApplicationID")] or ["TypeEnum"]
     # a program concentrates on 1-3 fields so that checks interact
@@ -889,6 +907,9 @@ def semantic_program(draw, profile: str = "modelled", disabled=(), focus: Option
     if cfg.pin is not None:
         prog["pin"] = cfg.pin
         prog["features"] = sorted(set(prog["features"]) | {"pinned_index"})
+    if cfg.allslots:
+        prog["allslots"] = True
+        prog["features"] = sorted(set(prog["features"]) | {"all_slots_checks"})
     if with_ast:
         prog["ast"] = ast
         prog["cfg_off"] = sorted(cfg.off)
